@@ -308,14 +308,21 @@ class World (object):
       of_01.deferredSender = DeferredSenderStub()
     if of_01.of._logger is None:
       of_01.of._logger = self.core.getLogger("libopenflow_01")
+    return self.restart_openflow_task()
+
+  def restart_openflow_task (self):
+    """(Re)create the controller's listening task (after it died)."""
+    of_01 = self.of_01
+    nbefore = len(self.sockshim.listeners)
     t = of_01.OpenFlow_01_Task(port=6633, address="0.0.0.0")
-    self.core.register("of_01", t)
+    if not self.core.hasComponent("of_01"):
+      self.core.register("of_01", t)
     t.start()
     self.of_task = t
     self.run(max_steps=20)
-    if not self.sockshim.listeners:
+    if len(self.sockshim.listeners) <= nbefore:
       raise AdapterError("OpenFlow_01_Task did not create a listener")
-    self.listener = self.sockshim.listeners[0]
+    self.listener = self.sockshim.listeners[-1]
     return t
 
   def connect_switch_socket (self, name="sw"):
